@@ -167,6 +167,9 @@ def finish_common(flow, run, hits, bad, scen):
         if k == "clock":
             if run["err"] == "nil" and ex.get("clock") != want:
                 bad("C15", "a plain argument expression written after %s call arguments was evaluated after %s of them" % (want, ex.get("clock")))
+        elif k == "local":
+            if any(c.split("(")[0] == getattr(flow, "local_task", "?") for c in run["calls"]) and ex.get("local") != want:
+                bad("C15", "a local variable of the enclosing function that a task's function literal mentions had the value %s inside the task, the caller's value is %s: the literal's free variable was captured by an identifier of the generated code" % (ex.get("local"), want))
         elif ex.get(k) != want:
             bad("C15", "a Results pointer named by a variable was read after a later argument expression had reassigned the variable")
     if any("late" in c for c in run["calls"]) or any("late" in v for v in run["results"]):
@@ -184,27 +187,67 @@ def finish_common(flow, run, hits, bad, scen):
     return hits
 
 
-JOB_RE = re.compile(r"(task\d+|pred\d+)\.job = sched\.Enqueue\(ctx, \w+\.Job\{\s*Run:\s*(?:task\d+|pred\d+)\.run,\s*(?:Dependencies: \[\]\*\w+\.ScheduledJob\{([^}]*)\},\s*)?\}\)")
+JOB_RE = re.compile(r"(\w+?)(\d+)\.\w+\s*=\s*\w+\.Enqueue\(\s*\w+\s*,\s*\w+\.Job\{(.*?)\}\)", re.S)
+DEPS_RE = re.compile(r"Dependencies:\s*\[\]\*\w+\.ScheduledJob\{([^}]*)\}")
 
 
 def parse_job_graph(text, flow):
     """The Dependencies lists of one generated function, renamed to the model's job names
-    (tasks by ascending serial = listing order; predicates likewise)."""
-    jobs = [(m.group(1), [d.strip()[:-4] for d in (m.group(2) or "").split(",") if d.strip()]) for m in JOB_RE.finditer(text)]
-    tnames = sorted({j for j, _ in jobs if j.startswith("task")}, key=lambda x: int(x[4:]))
-    pnames = sorted({j for j, _ in jobs if j.startswith("pred")}, key=lambda x: int(x[4:]))
-    ren = {}
-    for i, nm in enumerate(tnames):
-        ren[nm] = "t%d" % i
+    (tasks by ascending serial = listing order; predicates likewise). The spelling of the
+    generated identifiers is not relied upon beyond "<letters><number>.<field>": the jobs
+    are the assignments of an Enqueue call with a Job literal; the two kinds of job variable are
+    told apart by their counts. Returns None when the text cannot be read with confidence (then
+    no verdict is based on it)."""
+    jobs = []
+    for m in JOB_RE.finditer(text):
+        dm = DEPS_RE.search(m.group(3))
+        deps = []
+        for d in (dm.group(1).split(",") if dm else []):
+            d = d.strip()
+            if not d:
+                continue
+            mm = re.match(r"(\w+?)(\d+)\.\w+$", d)
+            if not mm:
+                return None
+            deps.append((mm.group(1), int(mm.group(2))))
+        jobs.append(((m.group(1), int(m.group(2))), deps))
+    prefixes = {}
+    for (pre, n), _ in jobs:
+        prefixes.setdefault(pre, set()).add(n)
+    ntasks = len(flow.tasks)
     withpred = [t["id"] for t in flow.tasks if t["pred"] is not None]
-    for i, nm in enumerate(pnames):
-        ren[nm] = "q%d" % (withpred[i] if i < len(withpred) else 999)
-    return {ren[j]: sorted(ren.get(d, d) for d in deps) for j, deps in jobs}
+    if len(jobs) != ntasks + len(withpred) or len(set(j for j, _ in jobs)) != len(jobs) or not 1 <= len(prefixes) <= 2:
+        return None
+    tpre = [p for p, ns in prefixes.items() if len(ns) == ntasks]
+    ppre = [p for p, ns in prefixes.items() if len(ns) == len(withpred)]
+    if len(prefixes) == 1:
+        if withpred:
+            return None
+        tp, pp = tpre[0] if tpre else None, None
+    elif ntasks != len(withpred):
+        tp = tpre[0] if tpre else None
+        pp = [p for p in prefixes if p != tp][0]
+        if tp is None or len(prefixes[pp]) != len(withpred):
+            return None
+    else:
+        # as many predicates as tasks: the predicate jobs are those no job but one depends on... keep to the names
+        tp, pp = ("task", "pred") if set(prefixes) == {"task", "pred"} else (None, None)
+    if tp is None:
+        return None
+    ren = {}
+    for i, n in enumerate(sorted(prefixes[tp])):
+        ren[(tp, n)] = "t%d" % i
+    if pp is not None:
+        for i, n in enumerate(sorted(prefixes[pp])):
+            ren[(pp, n)] = "q%d" % withpred[i]
+    if any(d not in ren for _, deps in jobs for d in deps):
+        return None
+    return {ren[j]: sorted(ren[d] for d in deps) for j, deps in jobs}
 
 
 def prologue_case(text):
     """(assigned order, body mentions) of one generated function, positions ranked."""
-    lhs = [(m.start(1), m.group(1)) for m in re.finditer(r"^\t\t(_\d+_\d+) := ", text, re.M)]
+    lhs = [(m.start(1), m.group(1)) for m in re.finditer(r"^[ \t]*(?:var[ \t]+)?(_\d+_\d+)[ \t]*:?=[ \t]", text, re.M)]
     lhs_at = {a for a, _ in lhs}
     body = [m.group(0) for m in re.finditer(r"\b_\d+_\d+\b", text) if m.start(0) not in lhs_at]
 
@@ -316,6 +359,10 @@ def observe(seed, tier):
         summary["prologues"] = len(cases)
         for n, (assigned, body), out in zip(names, cases, outs):
             want = [int(x) for x in out.split()]
+            if body and not assigned:
+                # mentions but no assignment of the shape the reader knows: the text is not read with confidence, no verdict
+                summary["prologues_unreadable"] = summary.get("prologues_unreadable", 0) + 1
+                continue
             if assigned != want:
                 hit("C15", "the prologue of %s assigns the hoisted expressions in order %s (ranks of source positions); sorted, duplicate-free order of the mentioned expressions is %s" % (n, assigned, want),
                     {"go_function": n, "assigned": assigned, "model_prologue": want, "mentions": body, "module": mod})
@@ -349,8 +396,12 @@ def observe(seed, tier):
         runs = [json.loads(l) for l in out.split("\n") if l.strip()]
         if rc != 0 or len(runs) != len(plan):
             last = [l for l in err.split("\n") if l.startswith("RUN ")]
+            entry = plan[len(runs)] if len(runs) < len(plan) else None
             hit("C04", "the process running generated code died (exit %d) during %s" % (rc, last[-1] if last else "?"),
-                {"stderr_tail": err[-3000:], "plan_entry": plan[len(runs)] if len(runs) < len(plan) else None})
+                {"stderr_tail": err[-3000:], "plan_entry": entry})
+            if entry and (entry.get("precancel") or "cancel" in entry.get("scenario", {}).values()):
+                hit("C09", "a Flow called with a cancelled context did not return: the process died (exit %d) during %s" % (rc, last[-1] if last else "?"),
+                    {"stderr_tail": err[-3000:], "plan_entry": entry})
         byname = {f.name(): f for f in flows}
         lines = []
         for run in runs:
@@ -369,7 +420,12 @@ def observe(seed, tier):
                         j, ds = ent.split(":")
                         want[j] = sorted(d for d in ds.split(",") if d)
                 got = parse_job_graph(gotext.get(f.name(), ""), f)
-                summary["graphs"] = summary.get("graphs", 0) + 1
+                if got is None:
+                    # the generated text is not of the shape the reader knows: no structural verdict
+                    summary["graphs_unreadable"] = summary.get("graphs_unreadable", 0) + 1
+                    got = want
+                else:
+                    summary["graphs"] = summary.get("graphs", 0) + 1
                 gs = {j: sorted(set(d)) for j, d in got.items()}
                 ws = {j: sorted(set(d)) for j, d in want.items()}
                 if gs != ws:
